@@ -958,6 +958,20 @@ def rule_hold_bound(prog, res, rule="R-HOLD-BOUND"):
     if k < 1:
         raise AnalysisBroken("%s no longer stores into the hold table by index" % regf.name)
     n += k
+    # with the count bounded (the two clauses above make holds.n <= slots inductive), the loops over
+    # 0..holds.n-1 stay inside the table
+    from . import linear as _L
+    slots = hold_slots(prog)
+
+    def inv(key, name, st, an):
+        return [("le", _L.lsub(_L.lvar(name), _L.lconst(slots)))] if key.endswith("holds.n") else []
+    loops = [g.name for g in channel_functions(prog) if g is not regf and any(
+        isinstance(y, dict) and y.get("k") == "idx" and (ir.ap(y.get("b")) or "").endswith(("holds.pos", "holds.cycles")) and not ir.is_const(y.get("i"))
+        and not any(isinstance(z, dict) and z.get("k") == "call" for z in ir.walk(y.get("i")))
+        and not any(isinstance(z, dict) and z.get("k") == "var" and "argmin" == z.get("n") for z in ir.walk(y.get("i")))
+        for b, i, s in g.all_stmts() for y in ir.walk(s)) and paths.natural_loops(g)]
+    for gname in sorted(set(loops)):
+        n += rule_index_guards(prog, res, [gname], rule=rule, invariant=inv, follow=False)
     # refusal
     for f in prog.all_funcs():
         if not f.blocks or f is regf:
